@@ -14,13 +14,13 @@ import (
 )
 
 // c12HeightsAt: the heights at which a pending entry can exist at block `now`.
-// Invariant of every reachable state (maturity is the hard-coded constant
-// RewardsMaturityTime = 4, heights are consecutive): an entry is created only
-// at key height (creation height + 4) <= now + 4, and entries below `now` have
-// been zeroed at their own height. Pre-states outside this invariant (e.g. an
-// entry at height 70 while now = 7, which would collide with the un-terminated
-// key prefix "deleg_p_7") are unreachable and therefore not examined.
-func c12HeightsAt(now int64) []int64 { return []int64{now - 1, now, now + 1, now + 4} }
+// Invariant of every reachable state: an entry is created at key height
+// (creation height + RewardsMaturityTime) <= now + RewardsMaturityTime, and
+// entries below `now` have been zeroed at their own height. The maturity time is
+// a genesis option (the constant 4 is only the in-code default; the testnet
+// initialiser uses 109200), so entries far ahead of `now` are reachable: 10*now
+// stands for them (its decimal text starts with that of `now`).
+func c12HeightsAt(now int64) []int64 { return []int64{now - 1, now, now + 1, now + 4, 10 * now} }
 
 func c12Amount(name string) *balance.Amount {
 	v := sv.BigInt(name)
@@ -31,8 +31,8 @@ func c12Amount(name string) *balance.Amount {
 // SV_C12_mature_undelegation: addMaturedAmountsToBalance at height `now` from
 // an arbitrary committed pending-undelegation table.
 //
-// sv:bounds 2 delegators; now in {7,70}; pending entries at heights {now-1 (already matured: zero), now, now+1, now+4} for both delegators, each an arbitrary amount >= 0; balances arbitrary >= 0
-// sv:outside histories (one BeginBlock step from an arbitrary table satisfying the reachable-state invariant: key height <= now + RewardsMaturityTime); more than 2 delegators
+// sv:bounds 2 delegators; now in {7,70}; pending entries at heights {now-1 (already matured: zero), now, now+1, now+4, 10*now} for both delegators, each an arbitrary amount >= 0; balances arbitrary >= 0
+// sv:outside histories (one BeginBlock step from an arbitrary table satisfying the reachable-state invariant: key height <= now + RewardsMaturityTime, the maturity time being any genesis option value); more than 2 delegators
 // sv:goal exactly the entries of height == now are paid, each to its own delegator, each is then zero, and no entry of another height changes
 func SV_C12_mature_undelegation() {
 	app := svNewApp()
